@@ -18,6 +18,7 @@ def register(reg):
     register_stubs(reg)
     register_hash(reg)
     register_env(reg)
+    register_paths(reg)
 
     @reg.specfun("as_bytes")
     def as_bytes(ex, st, args, cx):
@@ -321,3 +322,36 @@ def register_env(reg):
         v = z3.Select(st.g("env"), ex.o.s(args[0]))
         st.assume(z3.Or(ex.w.V.is_none(v), ex.w.V.is_str(v)))
         return SV(v)
+
+
+def register_paths(reg):
+    def mk(name, fn):
+        @reg.specfun(name)
+        def f(ex, st, args, cx, fn=fn):
+            return ex.o.str_(fn(ex.o.s(args[0])))
+    dot = z3.StringVal(".")
+
+    def head(s):
+        i = z3.IndexOf(s, dot, 0)
+        return z3.If(i >= 0, z3.SubString(s, 0, i), s)
+
+    def tail(s):
+        i = z3.IndexOf(s, dot, 0)
+        return z3.If(i >= 0, z3.SubString(s, i + 1, z3.Length(s) - i - 1), z3.StringVal(""))
+
+    def init(s):
+        i = z3.LastIndexOf(s, dot)
+        return z3.If(i >= 0, z3.SubString(s, 0, i), z3.StringVal(""))
+
+    def last(s):
+        i = z3.LastIndexOf(s, dot)
+        return z3.If(i >= 0, z3.SubString(s, i + 1, z3.Length(s) - i - 1), s)
+    mk("path_head", head)      # text before the first dot
+    mk("path_tail", tail)      # text after the first dot
+    mk("path_init", init)      # text before the last dot
+    mk("path_last", last)      # text after the last dot
+
+    @reg.specfun("cfg_item")
+    def cfg_item(ex, st, args, cx):
+        """value a configuration resolves a (dotted) path to: the outcome of Config.__getitem__"""
+        return SV(ex.w.fun("spec_cfg_item", "V", "str", "V")(args[0].e, ex.o.s(args[1])))
